@@ -525,6 +525,20 @@ def check(ctx):
                node=None)
     ctx.need(npath >= 2, "no _ref_path accessor found")
 
+    # ---------------------------------------------------------------- C15.3b'' the position of an item is found by identity
+    # two configurations with equal values compare equal (ConfigType.__eq__): list.index(item) names the first of them
+    gip = model.method("ListProxy", "_get_item_position")
+    by_eq = [x for x in ast.walk(gip.node) if isinstance(x, ast.Call) and isinstance(x.func, ast.Attribute) and x.func.attr in ("index", "count")
+             and isinstance(x.func.value, (ast.Name, ast.Call))]
+    by_eq += [x for x in ast.walk(gip.node) if isinstance(x, ast.Compare) and any(isinstance(o, (ast.Eq, ast.In)) for o in x.ops)
+              and any(isinstance(y, ast.Name) and y.id == gip.positional_params[1] for y in ast.walk(x))]
+    by_id = any(isinstance(x, ast.Compare) and any(isinstance(o, ast.Is) for o in x.ops)
+                and any(isinstance(y, ast.Name) and y.id == gip.positional_params[1] for y in ast.walk(x)) for x in ast.walk(gip.node))
+    ctx.ob("path.item-position-by-identity", gip, (by_eq or [gip.node.name])[0], by_id and not by_eq,
+           "the item is looked for by identity" if by_id and not by_eq else
+           "ListProxy._get_item_position finds the item by equality (%s): of two list items with equal values the first one is named, an error in "
+           "servers[1] is reported as servers[0]" % (ast.unparse(by_eq[0])[:40] if by_eq else "no identity comparison"))
+
     # ---------------------------------------------------------------- C15.3c a document value is used as a mapping only after it was tested to be one
     check_document_shape(ctx)
 
